@@ -296,6 +296,11 @@ def make_cases(tier, rnd):
         for basis in ("enum:XAIG", "xaig", "enum:AIG"):
             cases.append(dict(fn="add_sum_n_weighted_bits", widths=[len(ws)], weights=ws, basis=basis, host="fresh", heavy=True))
         cases.append(dict(fn="add_sum_n_weighted_bits_naive", widths=[len(ws)], weights=ws, basis="enum:XAIG", host="fresh", heavy=True))
+    # weight vectors with empty levels between occupied ones (a carry pair must keep its level across the gap)
+    for ws in ([0, 0, 0, 0, 2], [1, 1, 1, 1, 3, 3, 3], [0] * 8 + [3], [0, 0, 0, 0, 0, 3], [2, 2, 2, 2, 5, 7], [0] * 4 + [4, 4, 4, 4, 9], [0, 2], [0] * 6 + [3]):
+        for basis in ("enum:XAIG", "XAIG", "enum:AIG"):
+            cases.append(dict(fn="add_sum_n_weighted_bits", widths=[len(ws)], weights=list(ws), basis=basis, host="fresh"))
+        cases.append(dict(fn="add_sum_n_weighted_bits_naive", widths=[len(ws)], weights=list(ws), basis="enum:XAIG", host="host"))
     # bit counts
     ns = list(range(1, 13)) + [16, 24, 31, 32] if not thorough else list(range(1, 33))
     for n in ns:
